@@ -24,6 +24,10 @@ pub struct TupleCase {
     pub decls: Vec<Kind>,
     /// use background-color instead of color
     pub bg: bool,
+    /// (i, j), i < j: declaration j restates the value of declaration i (a restatement must still take
+    /// part in the cascade with its own importance, origin, specificity and position)
+    #[serde(default)]
+    pub same: Option<(u8, u8)>,
 }
 
 const SELS: [&str; 5] = ["p", ".c", "#i", "p.c", ":nth-child(1)"];
@@ -51,7 +55,11 @@ pub fn check_tuple(case: &TupleCase, st: &mut Stats) -> Result<(), String> {
     let mut cands: Vec<(Candidate, u32)> = vec![];
     // application order: agent sheet, user sheet, author sheet, inline; within a sheet: tuple order
     for (i, k) in case.decls.iter().enumerate() {
-        let colour = 0x010000 + (i as u32 + 1) * 0x11;
+        let vi = match case.same {
+            Some((a, b)) if b as usize == i => a as usize,
+            _ => i,
+        };
+        let colour = 0x010000 + (vi as u32 + 1) * 0x11;
         let imp = if k.important { " !important" } else { "" };
         if k.origin == 3 {
             inline.push_str(&format!("{}:{}{};", prop, colour_hex(colour), imp));
@@ -112,8 +120,12 @@ pub fn check_tuple(case: &TupleCase, st: &mut Stats) -> Result<(), String> {
     if got.last() != Some(&expected) {
         let describe = |k: &Kind| format!("{}{}{}", ["agent", "user", "author", "inline"][k.origin as usize], if k.important { "!" } else { "" }, if k.origin == 3 { String::new() } else { format!("({})", SELS[k.spec as usize]) });
         return Err(format!(
-            "cascade: declarations {:?} (in source order; colours #0100{{11,22,33}}) => expected winner {} but the text carries {:?}\n agent css={:?}\n user css={:?}\n html={}",
+            "cascade: declarations {:?} (in source order; colours #0100{{11,22,33}}{}) => expected winner {} but the text carries {:?}\n agent css={:?}\n user css={:?}\n html={}",
             case.decls.iter().map(describe).collect::<Vec<_>>(),
+            match case.same {
+                Some((a, b)) => format!(", but declaration {} restates the colour of declaration {}", b + 1, a + 1),
+                None => String::new(),
+            },
             colour_hex(expected),
             got.iter().map(|c| colour_hex(*c)).collect::<Vec<_>>(),
             sheets[0],
@@ -221,15 +233,18 @@ fn tuple_items(ctx: &Ctx) -> Vec<TupleCase> {
     let mut v = vec![];
     for a in &kinds {
         for b in &kinds {
-            v.push(TupleCase { decls: vec![*a, *b], bg: false });
-            v.push(TupleCase { decls: vec![*a, *b], bg: true });
+            v.push(TupleCase { decls: vec![*a, *b], bg: false, same: None });
+            v.push(TupleCase { decls: vec![*a, *b], bg: true, same: None });
         }
     }
     for (i, a) in kinds.iter().enumerate() {
         let _ = (i, ctx);
         for b in &kinds {
             for c in &kinds {
-                v.push(TupleCase { decls: vec![*a, *b, *c], bg: false });
+                v.push(TupleCase { decls: vec![*a, *b, *c], bg: false, same: None });
+                // the same triple with one value restated: (0,1), (0,2), (1,2) in turn
+                let n = v.len() % 3;
+                v.push(TupleCase { decls: vec![*a, *b, *c], bg: false, same: Some([(0, 1), (0, 2), (1, 2)][n]) });
             }
         }
     }
@@ -288,7 +303,7 @@ pub fn property() -> Property {
     Property {
         id: "C19",
         level: "exploration",
-        rule: "exhaustive: all ordered pairs (x color / background-color) and all ordered triples of declarations from 32 kinds = {agent, user, author} x {normal, !important} x selector in {p, .c, #i, p.c, :nth-child(1)} plus inline {normal, !important}, applied to one element through add_agent_css / add_css / the document's <style> / its style attribute, unique colour per declaration; random: agent + user + author sheets of <= 4 rules each (selector lists from C20's grammar, color / background-color, 25% !important) and inline styles over nested table-free documents, with and without use_doc_css. Oracle: reference cascade (importance-and-origin rank agent < user < author < author! < user! < agent!, inline over selectors, specificity (ids, classes+pseudo-classes, elements), source order) picks the winner per element and property; rich output must carry exactly the winners' Colour/BgColour on every text piece, nearest enclosing element innermost (full annotation vectors as in C09). Non-trivial (tuples) = the two best candidates differ in at most one key component; (random) a text with >= 2 annotations in a structured position; distinct by the whole case.",
+        rule: "exhaustive: all ordered pairs (x color / background-color) and all ordered triples of declarations from 32 kinds = {agent, user, author} x {normal, !important} x selector in {p, .c, #i, p.c, :nth-child(1)} plus inline {normal, !important}, applied to one element through add_agent_css / add_css / the document's <style> / its style attribute, unique colour per declaration, and every triple once more with one declaration restating the value of an earlier one (pairs (1,2), (1,3), (2,3) in rotation); random: agent + user + author sheets of <= 4 rules each (selector lists from C20's grammar, color / background-color, 25% !important) and inline styles over nested table-free documents, with and without use_doc_css. Oracle: reference cascade (importance-and-origin rank agent < user < author < author! < user! < agent!, inline over selectors, specificity (ids, classes+pseudo-classes, elements), source order) picks the winner per element and property; rich output must carry exactly the winners' Colour/BgColour on every text piece, nearest enclosing element innermost (full annotation vectors as in C09). Non-trivial (tuples) = the two best candidates differ in at most one key component; (random) a text with >= 2 annotations in a structured position; distinct by the whole case.",
         assumptions: vec!["selector matching itself is C20's subject (same reference matcher)", "documents are table-free"],
         hang_is_violation: false,
         subs: vec![
